@@ -67,6 +67,16 @@ pub struct Hooks {
 
 static HOOKS: AtomicPtr<Hooks> = AtomicPtr::new(core::ptr::null_mut());
 
+/// Number of `futex_wait` calls made through the shim WITH a timeout (the hook signature carries
+/// no timeout; a hook that serialises threads can attribute an increment to the call it is serving).
+static TIMED_WAITS: CoreAtomicU32 = CoreAtomicU32::new(0);
+
+/// See `TIMED_WAITS`.
+#[must_use]
+pub fn timed_wait_calls() -> u32 {
+    TIMED_WAITS.load(Ordering::SeqCst)
+}
+
 /// Install a hook table for the whole process.
 pub fn install(hooks: &'static Hooks) {
     HOOKS.store(
@@ -387,6 +397,9 @@ pub fn futex_wait(
     flags: FutexFlags,
     timeout: Option<TimeSpec>,
 ) -> Result<(), rusl::Error> {
+    if timeout.is_some() {
+        TIMED_WAITS.fetch_add(1, Ordering::SeqCst);
+    }
     if let Some(h) = hooks() {
         if let Some(r) = (h.futex_wait)(&uaddr.inner, val) {
             return if r < 0 {
